@@ -395,6 +395,25 @@ package eval
 //@   loop 1
 //@     invariant len(vals) == len(t.Entities) && !isnil(vals) && (forall j int :: (0 <= j && j < $i) ==> vals[j] == types.Value(t.Entities[j]))
 
+// What "satisfied" means for the expression PolicyToNode builds (C02): the conjunction is
+// satisfied iff every conjunct is; a `when` conjunct iff its body is true, an `unless` conjunct
+// iff its body is false; a scope conjunct iff the request part is an entity that matches the
+// scope (==, in: reachability, in-set: some member reachable, is: type, is-in: both).
+//@ spec func satN(x ast.IsNode, env Env) bool = okBool(ToEval#0(x), env) && vBool(ToEval#0(x), env)
+//@ spec func part(env Env, name string) types.Value = name == "principal" ? env.Principal : (name == "action" ? env.Action : env.Resource)
+//@ spec func isPart(name string) bool = name == "principal" || name == "action" || name == "resource"
+//@ spec func varN(name string) ast.IsNode = ast.IsNode(mkstruct(ast.NodeTypeVariable, types.String(name)))
+//@ lemma C02 sat_chain_step dispatch Evaler.Eval@andEval: forall ns []ast.Node, i int, env Env :: (0 <= i && i < len(ns) - 1) ==> (satN(chain(ns, i), env) == (satN(ns[i].v, env) && satN(chain(ns, i + 1), env)))
+//@ lemma C02 sat_chain_last: forall ns []ast.Node, i int, env Env :: (i >= 0 && i == len(ns) - 1) ==> (satN(chain(ns, i), env) == satN(ns[i].v, env))
+//@ lemma C02 sat_true dispatch Evaler.Eval@literalEval: forall env Env :: satN(trueNode(), env)
+//@ lemma C02 sat_when: forall c ast.ConditionType, env Env :: c.Condition != ast.ConditionUnless ==> (satN(condNode(c), env) == satN(c.Body, env))
+//@ lemma C02 sat_unless dispatch Evaler.Eval@notEval: forall c ast.ConditionType, env Env :: c.Condition == ast.ConditionUnless ==> (satN(condNode(c), env) == (okBool(ToEval#0(c.Body), env) && !vBool(ToEval#0(c.Body), env)))
+//@ lemma C02 sat_scope_eq dispatch Evaler.Eval@equalEval@variableEval@literalEval, Value.Equal@EntityUID: forall name string, e types.EntityUID, env Env :: (isPart(name) && (part(env, name) is types.EntityUID)) ==> (satN(ast.IsNode(mkstruct(ast.NodeTypeEquals, mkstruct(ast.BinaryNode, varN(name), litNode(types.Value(e))))), env) == (part(env, name).(types.EntityUID) == e))
+//@ lemma C02 sat_scope_in dispatch Evaler.Eval@inEval@variableEval@literalEval: forall name string, e types.EntityUID, env Env :: isPart(name) ==> (satN(ast.IsNode(mkstruct(ast.NodeTypeIn, mkstruct(ast.BinaryNode, varN(name), litNode(types.Value(e))))), env) == ((part(env, name) is types.EntityUID) && reach(env, part(env, name).(types.EntityUID), e)))
+//@ lemma C02 sat_scope_is dispatch Evaler.Eval@isEval@variableEval: forall name string, t types.EntityType, env Env :: isPart(name) ==> (satN(ast.IsNode(mkstruct(ast.NodeTypeIs, varN(name), t)), env) == ((part(env, name) is types.EntityUID) && part(env, name).(types.EntityUID).Type == t))
+//@ lemma C02 sat_scope_isin dispatch Evaler.Eval@isInEval@variableEval@literalEval: forall name string, t types.EntityType, e types.EntityUID, env Env :: isPart(name) ==> (satN(ast.IsNode(mkstruct(ast.NodeTypeIsIn, mkstruct(ast.NodeTypeIs, varN(name), t), litNode(types.Value(e)))), env) == ((part(env, name) is types.EntityUID) && part(env, name).(types.EntityUID).Type == t && reach(env, part(env, name).(types.EntityUID), e)))
+//@ lemma C02 sat_scope_inset dispatch Evaler.Eval@inEval@variableEval@literalEval: forall name string, s types.Set, env Env :: (isPart(name) && (forall x types.Value :: iter_Set_All(s, x) ==> (x is types.EntityUID))) ==> (satN(ast.IsNode(mkstruct(ast.NodeTypeIn, mkstruct(ast.BinaryNode, varN(name), litNode(types.Value(s))))), env) == ((part(env, name) is types.EntityUID) && (exists t types.EntityUID :: iter_Set_All(s, types.Value(t)) && reach(env, part(env, name).(types.EntityUID), t))))
+
 // The evaluator a policy runs is the one wired from the folded copy.
 //@ func Compile
 //@   props C04 C02
